@@ -299,7 +299,7 @@ class System:
     def wrap_broker(self, b, c):
         log = self.log
         for name, f in inspect.getmembers(type(b), inspect.isfunction):
-            if name.startswith("__"):
+            if name.startswith("__") or name == "doRemoteCall":     # doRemoteCall is the dispatcher itself
                 continue
             bound = getattr(b, name)
 
